@@ -3,7 +3,8 @@
    HIDING AN ENTRY) only: a link file is a list of blocks separated by a blank
    line, a block is a finite map from the seven line kinds to values
    (represented as a list of fields with distinct keys), comments stand
-   between blocks.  Nothing here looks at how getLinkItem reads a file.
+   between blocks, the lines of a block may be indented (the manual prints its
+   examples so).  Nothing here looks at how getLinkItem reads a file.
    Definitions only. *)
 From Coq Require Import ZArith String.
 From PG Require Import Lib.Str Lib.Cmp Model.DirEntry Model.UMN.
@@ -27,7 +28,9 @@ Inductive field :=
 | FNumb (neg : bool) (digits : str)
 | FAbstract (conts : list str) (final : str).   (* conts: the lines that end in a backslash *)
 
-Record sblock := mkSBlock { sb_comments : list str; sb_fields : list field }.
+(* sb_indent: blanks in front of every line of the block (the manual prints its
+   examples indented; getLinkItem strips each line) *)
+Record sblock := mkSBlock { sb_comments : list str; sb_fields : list field; sb_indent : str }.
 Definition linkfile := list sblock.
 
 Definition key_of (f : field) : N :=
@@ -62,12 +65,14 @@ Definition field_lines (f : field) : list str :=
 Definition block_lines (b : sblock) : list str :=
   map (fun c => 35 :: c) (sb_comments b) ++ concat (map field_lines (sb_fields b)).
 
+Definition indented_lines (b : sblock) : list str := map (app (sb_indent b)) (block_lines b).
+
 (* blocks are separated by one blank line *)
 Fixpoint lf_lines (lf : linkfile) : list str :=
   match lf with
   | [] => []
-  | [b] => block_lines b
-  | b :: r => block_lines b ++ [] :: lf_lines r
+  | [b] => indented_lines b
+  | b :: r => indented_lines b ++ [] :: lf_lines r
   end.
 
 Definition render_linkfile (lf : linkfile) : str := concat (map (fun l => l ++ [10]) (lf_lines lf)).
@@ -111,7 +116,11 @@ Definition wf_field (f : field) : bool :=
 Fixpoint distinct (l : list N) : bool :=
   match l with [] => true | x :: r => negb (mem_N x r) && distinct r end.
 
+(* indentation: blanks other than line ends *)
+Definition wf_indent (s : str) : bool := forallb is_space s && no_eol s.
+
 Definition wf_block (b : sblock) : bool :=
+  wf_indent (sb_indent b) &&
   forallb (fun c => no_eol c && no_trailing_space c) (sb_comments b) &&
   forallb wf_field (sb_fields b) &&
   distinct (map key_of (sb_fields b)) &&
